@@ -108,6 +108,32 @@ Section Carrier.
       - apply maf_out_rank; assumption.
       - lia.
     Qed.
+
+    (* hence, for the concrete network, ANY weights and ANY scalar transformer family (tfwd p, tinv p) that satisfies the
+       leaf law on blocks of np parameters: the scan inverts the forward map, and conversely.  No real numbers involved. *)
+    Section AnyTransformer.
+      Variables (tfwd tinv : list A -> A -> A) (D C : A -> Prop).
+      Theorem maf_net_inv_fwd_any (d0 : A) (cond x : list A) :
+        (forall p v, length p = np -> D v -> tinv p (tfwd p v) = v) -> length x = dim -> Forall D x ->
+        maf_inv d0 tinv net_g cond (maf_fwd tfwd net_g cond x) = x.
+      Proof.
+        intros L Hx HD.
+        apply (maf_inv_fwd A (list A) d0 tfwd tinv net_g (fun p => length p = np) D dim cond); auto.
+        - intros x0 _. apply net_g_length.
+        - intros x0 _. apply net_g_blocks.
+        - intros x0 x1 i H0 H1 Hag. apply (masked_conditioner_autoregressive d0); assumption.
+      Qed.
+      Theorem maf_net_fwd_inv_any (d0 : A) (cond y : list A) :
+        (forall p v, length p = np -> C v -> tfwd p (tinv p v) = v) -> length y = dim -> Forall C y ->
+        maf_fwd tfwd net_g cond (maf_inv d0 tinv net_g cond y) = y.
+      Proof.
+        intros L Hy HC.
+        apply (maf_fwd_inv A (list A) d0 tfwd tinv net_g (fun p => length p = np) C dim cond); auto.
+        - intros x0 _. apply net_g_length.
+        - intros x0 _. apply net_g_blocks.
+        - intros x0 x1 i H0 H1 Hag. apply (masked_conditioner_autoregressive d0); assumption.
+      Qed.
+    End AnyTransformer.
   End MafNet.
 End Carrier.
 
